@@ -150,6 +150,19 @@ func (s *LinearState) Load(ctx *Context) error {
 			return err
 		}
 		s.Facts[id] = RawFact{m, js}
+
+		if s.addHook != nil {
+			// Like IndexedState, tell the hook what we loaded.
+			// Otherwise a non-persistent cron never hears about
+			// the scheduled rules of a reloaded location.
+			s.withPrivilege(ctx)
+			err := s.addHook(ctx, s, id, m, true)
+			s.withoutPrivilege(ctx)
+			if err != nil {
+				Log(ERROR, ctx, "LinearState.Load", "error", err, "when", "addHook", "id", id)
+				return err
+			}
+		}
 	}
 
 	Log(DEBUG, ctx, "LinearState.Load", "location", s.Name, "facts", len(s.Facts))
